@@ -160,6 +160,10 @@ func init() {
 		st.heap["HKind"] = ex.define(st, "HKind", Store(st.heap["HKind"], r, IntLit(256)))
 		return Scalar(r)
 	})
+	regDep("crypto/sha256.Sum256", nil, "sha256.Sum256(data): the [32]byte value SHA-256(data) (sha256 uninterpreted, the same function as New/Write/Sum); data not modified", func(ex *Exec, st *State, c *ssa.Call, a []SV) SV {
+		d := ex.define(st, "sum256", App(SBytes, "f_sha256", ex.sliceBytes(st, a[0])))
+		return SV{K: KArray, Elem: "byte", T: d}
+	})
 	regDep("invoke hash.Hash.Write", []string{"HAcc"}, "h.Write(p): accumulator += p; returns (len(p), nil); p not modified", func(ex *Exec, st *State, c *ssa.Call, a []SV) SV {
 		h := a[0].T
 		ex.notNil(st, h, c, "hash.Hash")
@@ -327,6 +331,9 @@ func init() {
 
 	regDep("bytes.Equal", nil, "bytes.Equal(a, b) == (contents equal)", func(ex *Exec, st *State, c *ssa.Call, a []SV) SV {
 		return Scalar(ex.define(st, "byteseq", Eq(ex.sliceBytes(st, a[0]), ex.sliceBytes(st, a[1]))))
+	})
+	regDep("crypto/subtle.ConstantTimeCompare", nil, "subtle.ConstantTimeCompare(x, y) = 1 if contents (and lengths) are equal, else 0", func(ex *Exec, st *State, c *ssa.Call, a []SV) SV {
+		return Scalar(ex.define(st, "ctcmp", Ite(Eq(ex.sliceBytes(st, a[0]), ex.sliceBytes(st, a[1])), IntLit(1), IntLit(0))))
 	})
 	regDep("errors.Is", nil, "errors.Is(err, target) = is(err, target): reflexive; identity for errors.New / Errorf-without-%w values", func(ex *Exec, st *State, c *ssa.Call, a []SV) SV {
 		return Scalar(ex.define(st, "erris", App(SBool, "f_is", a[0].T, a[1].T)))
